@@ -508,6 +508,35 @@ struct Exec {
             check_isolation(*touched.begin());
     }
 
+    void do_recycle(const Event& e) {
+        std::set<int> touched;
+        for (int ri : e.recs) {
+            if (ri < 0 || ri >= (int)plan.recs.size() || !loaded[ri] ||
+                plan.recs[ri].kind != RK_METHOD)
+                return invalid("recycle: not a loaded method");
+            auto& r = plan.recs[ri];
+            auto& s = ps[r.pol];
+            s.ops->recycle_method(r.slot);
+            // its place in the method catalog is now the last one; its
+            // definitions are where they were
+            s.live.methods.erase(
+                std::find(s.live.methods.begin(), s.live.methods.end(), ri));
+            s.live.methods.push_back(ri);
+            touched.insert(r.pol);
+            ++res.st.faults["method_recycled_in_place"];
+        }
+        log("recycle " + join(e.recs));
+        for (int p : touched) {
+            ps[p].clean = false;
+            check_catalogs(ps[p]);
+            if (stop)
+                return;
+            note_own_event(ps[p]);
+        }
+        if (opts.watch_isolation && touched.size() == 1)
+            check_isolation(*touched.begin());
+    }
+
     void do_relocate(const Event& e) {
         if (e.cls < 0 || e.cls >= w.ncls)
             return invalid("relocate: bad class");
@@ -2816,6 +2845,9 @@ struct Exec {
             case OP_DECODE:
                 do_decode(e);
                 break;
+            case OP_RECYCLE:
+                do_recycle(e);
+                break;
             default:
                 invalid("bad op");
             }
@@ -2998,7 +3030,7 @@ Plan restrict_to_policy(const Plan& p, int keep) {
             r.meth = remap[r.meth];
     q.events.clear();
     for (auto e : p.events) {
-        if (e.op == OP_LOAD || e.op == OP_UNLOAD) {
+        if (e.op == OP_LOAD || e.op == OP_UNLOAD || e.op == OP_RECYCLE) {
             std::vector<int> v;
             for (int ri : e.recs)
                 if (ri >= 0 && ri < (int)remap.size() && remap[ri] >= 0)
